@@ -11,7 +11,11 @@ elab "#audit_ns " ns:ident : command => do
   let nsName := ns.getId
   let mut names : Array Name := #[]
   for (n, ci) in env.constants.toList do
-    if nsName.isPrefixOf n && !n.isInternal then
+    -- equation / induction lemmas that Lean derives from definitions are not proof obligations of ours
+    let last := match n with | .str _ s => s | _ => ""
+    let derived := last.startsWith "eq_" || last.startsWith "induct" || last.startsWith "fun_cases" ||
+      last.startsWith "mutual_induct" || last == "sizeOf_spec" || last == "injEq" || last == "inj"
+    if nsName.isPrefixOf n && !n.isInternal && !derived then
       match ci with
       | .thmInfo _ => names := names.push n
       | _ => pure ()
